@@ -29,7 +29,7 @@ RULE_TEXT = ('runs = seeded random suites of 2..6 cases (disturbers: env in both
              'with --suite + every case alone beside exactly.suite (+ the sub-suite case). Non-trivial = at least one '
              'disturber ran before an observer in one of the runs; distinct = (case kinds and endings in order, suite '
              'phases, sub-suite phases, preprocessor).')
-REACH_PROBES = ['case_with_own_conf_status', 'case_with_invalid_value_for_suite_instruction', 'stdin_disturbance',
+REACH_PROBES = ['launched_from_another_directory', 'case_with_own_conf_status', 'case_with_invalid_value_for_suite_instruction', 'stdin_disturbance',
                 'preprocessor_fails_for_one_case', 'suite_conf_status', 'suite_conf_actor', 'disturber_before_observer', 'disturber_ended_by_exception', 'disturber_ended_by_timeout',
                 'disturber_ended_by_hard_error', 'disturber_failing_cleanup', 'observer_foreign_symbol_reference',
                 'observer_same_symbol_names', 'suite_phase_setup', 'suite_phase_before_assert', 'suite_phase_assert',
@@ -177,7 +177,8 @@ def make_plan(i, master, tier):
             'knobs': {'mem_buff_size': g.choice([1, 8192])}, 'entry': 'cli', 'cases': cases, 'suite_phases': suite_phases,
             'preprocessor': preprocessor, 'sub': sub, 'perm': perm, 'sweep': False,
             # case configuration supplied by the suite's [conf]: applies to directly listed cases, in every run mode
-            'suite_conf': {'status_fail': g.random() < 0.2, 'actor': g.random() < 0.2}}
+            'suite_conf': {'status_fail': g.random() < 0.2, 'actor': g.random() < 0.2},
+            'launch_elsewhere': kernel.stream(seed, 'launch').random() < 0.3}
 
 
 # ----------------------------------------------------------------------------- model
@@ -383,11 +384,19 @@ def execute(plan, scratch):
     def new_sim():
         return kernel.Sim(dict(plan, procs=procs, faults=[dict(f) for f in faults]), w)
 
+    elsewhere = bool(plan.get('launch_elsewhere'))
+    start = os.path.join(w.home, 'zstart')
+    os.makedirs(start, exist_ok=True)
+
     def suite_run(mode, order):
         w.write('home/root.suite', suite_text(plan, 'root', order))
         sim = new_sim()
         with patches.installed(sim):
-            res = host.run_cli(sim, ['suite', 'root.suite'], tap=True, label=mode)
+            if elsewhere and mode == 'suite_permuted':
+                # launched from another directory: every path Exactly is given is relative to that directory
+                res = host.run_cli(sim, ['suite', '../root.suite'], tap=True, label=mode, cwd=start)
+            else:
+                res = host.run_cli(sim, ['suite', 'root.suite'], tap=True, label=mode)
         segs = split_suite_run(sim)
         recs = {}
         for k, sg in enumerate(segs):
@@ -418,7 +427,10 @@ def execute(plan, scratch):
         return sim.clock.advanced
 
     for c in cases:
-        sim_seconds += single('explicit', ['--suite', 'root.suite', c['id'] + '.case'], c['id'])
+        if elsewhere:
+            sim_seconds += single('explicit', ['--suite', '../root.suite', '../' + c['id'] + '.case'], c['id'], cwd=start)
+        else:
+            sim_seconds += single('explicit', ['--suite', 'root.suite', c['id'] + '.case'], c['id'])
     # (d) beside a copy of the suite file named exactly.suite
     w.write('home/exactly.suite', suite_text(plan, 'root'))
     for c in cases:
@@ -438,6 +450,8 @@ def execute(plan, scratch):
 
 def _probes(plan, hist):
     pr = {'mode_suite_run': 1, 'mode_permuted': 1, 'mode_explicit_suite_option': 1, 'mode_beside_exactly_suite': 1}
+    if plan.get('launch_elsewhere'):
+        pr['launched_from_another_directory'] = 1
     cases = plan['cases']
     for order in (list(range(len(cases))), plan['perm']):
         seen_d = False
